@@ -57,6 +57,8 @@ impl Type {
             (Self::Unknown, _) | (_, Self::Unknown) => true,
             // 0,1以外の値の場合はエラーを出す必要がある
             (Self::Int, Self::Bit) | (Self::Bit, Self::Int) => true,
+            // one bit
+            (Self::Bit, Self::Bits(1)) | (Self::Bits(1), Self::Bit) => true,
             // 指定されたビット幅でIntを表現できない場合はエラーを出す必要がある
             (Self::Int, Self::Bits(_)) | (Self::Bits(_), Self::Int) => true,
             (Self::String, Self::Code) | (Self::Code, Self::String) => true,
